@@ -219,6 +219,35 @@ def check_c12(prop, tier):
         res.cov['parts']['roundtrip'] = stats
         import p_cstr
         p_cstr.run_roundtrip(res, work)
+        # hunks at every class of line number (both sides, empty and non-empty sides): whatever the parser accepts must
+        # survive write-then-parse (numbers the writer prints must be the numbers that were read)
+        njobs = []
+        for o in NUMS:
+            for n_ in NUMS:
+                for oc, nc, body in ((1, 1, b'-a\n+b\n'), (0, 1, b'+b\n'), (1, 0, b'-a\n'), (0, 0, b''), (2, 2, b' c\n-a\n+b\n')):
+                    njobs.append({'id': len(njobs), 'patch': b'--- a/x\n+++ b/x\n@@ -%d,%d +%d,%d @@\n' % (o, oc, n_, nc) + body})
+        nobs = run_rt(njobs)
+        nacc = 0
+        for j in njobs:
+            r = nobs.get(j['id'], {'status': 'missing'})
+            detail = {'input': j['patch'].decode('latin-1'), 'observed': r}
+            if r.get('status') in ('missing', 'panic'):
+                res.violation('numeric-' + r['status'], 'the parser gives no result for a hunk header with large numbers', detail)
+            if r.get('status') != 'ok' or not r.get('p1'):
+                continue
+            nacc += 1
+            why = None
+            if r.get('status2') != 'ok':
+                why = 'the written form is not accepted: %s' % r.get('status2')
+            else:
+                why = same_c12(r['p1'], r['p2'])
+                if not why and r['w1'] != r['w2']:
+                    why = 'writing is not a fixed point'
+            if why:
+                detail['written'] = bytes.fromhex(r['w1']).decode('latin-1')
+                res.violation('numeric-roundtrip', 'hunk header with large line numbers does not survive write-then-parse: ' + why, detail)
+        res.cov['parts']['numeric-headers'] = {'inputs': len(njobs), 'accepted_and_round_tripped': nacc}
+        res.cov['traces_validated_against_impl'] += len(njobs)
         res.cov['traces_validated_against_impl'] += len(jobs)
         res.cov['evaluations'] += len(jobs)
         res.cov['distinct_nontrivial'] += len(uniq)
